@@ -22,7 +22,7 @@ Within the capacity only (no call may exceed N); C02 covers the failing calls of
 """
 import json, os, random
 from concurrent.futures import ThreadPoolExecutor
-from vlib import core, fixedstring as fx, fixedstring_upstream as up
+from vlib import core, fixedstring as fx, fixedstring_upstream as up, fixedstring_r3 as r3
 from vlib.core import MachineryError
 
 PID = "C01"
@@ -55,10 +55,13 @@ def _run(ctx, started):
     # p16t, s16t and p255t are also the configurations of the upstream tests (one driver build serves both)
     rnd_cfgs = [mk("char", 1, 0, 0), mk("char", 16, 0, 1), mk("char", 128, 0, 0, fl="o"), mk("char", 255, 0, 1), mk("char", 256, 0, 1, fl="co"),
                 mk("char", 300, 0, 0, fl="c"), mk("char", 16, 1, 1), mk("char16_t", 16, 0, 0)]
+    # capacities 3..7: the whole object is no larger than a size_t there (a hash of the object's bytes instead of its characters shows as two hashes
+    # for one string; the recorded executions log std::hash after every call and reach equal strings through different, dirty histories)
+    rnd_cfgs += [mk("char", 7, 0, 0), mk("char", 5, 1, 1), mk("char", 3, 0, 1)]
     ref_cfgs = [mk("char", 16, 0, 0, ref=1)]
     if not q:
         rnd_cfgs += [mk("char", 2, 0, 1), mk("char", 15, 0, 0, fl="co"), mk("char", 16, 0, 0, fl="z"), mk("char", 255, 0, 0, fl="o"), mk("char", 256, 0, 0),
-                     mk("char", 300, 0, 1), mk("char", 1, 1, 1), mk("char", 2, 1, 0), mk("char", 16, 1, 0, fl="co"), mk("char16_t", 300, 0, 1), mk("char", 7, 0, 0),
+                     mk("char", 300, 0, 1), mk("char", 1, 1, 1), mk("char", 2, 1, 0), mk("char", 16, 1, 0, fl="co"), mk("char16_t", 300, 0, 1), mk("char", 6, 0, 1), mk("char", 4, 1, 0),
                      mk("char", 8, 1, 1, fl="o"), mk("char", 200, 0, 0), mk("char", 129, 0, 1, fl="c"), mk("char", 16, 0, 0, fl="x"), mk("char", 16, 1, 0, fl="x")]
         ref_cfgs += [mk("char16_t", 16, 0, 0, ref=1), mk("wchar_t", 16, 0, 0, ref=1)]
 
@@ -78,10 +81,14 @@ def _run(ctx, started):
     if not q:
         s2c_targets["p4"] = [mk("char", 4, 0, 0)]
         s2c_targets["s4"] = [mk("char", 4, 1, 0)]
-        sim_cfgs = [("packed", mk("char", 8, 0, 0)), ("strlen", mk("char", 8, 1, 0))]
+        # TLC -simulate walks (S->C, whole behaviours): N = 8 as before; round 3: N = 5 (many short walks: every string of 5 characters
+        # is far beyond what BFS enumerates) and N = 7 (long walks)
+        sim_cfgs = [("FixedString_sim_packed_silent.cfg", mk("char", 8, 0, 0), 500, 40), ("FixedString_sim_strlen_silent.cfg", mk("char", 8, 1, 0), 500, 40),
+                    ("FixedString_sim5_packed_silent.cfg", mk("char", 5, 0, 0), 800, 30), ("FixedString_sim5_strlen_silent.cfg", mk("char", 5, 1, 0), 800, 30),
+                    ("FixedString_sim7_packed_silent.cfg", mk("char", 7, 0, 0), 300, 80), ("FixedString_sim7_strlen_silent.cfg", mk("char", 7, 1, 0), 300, 80)]
     up_scripts = [(n, mk(**kw), ev) for n, kw, ev in up.scripts()]
     directed = fx.merge_by_cfg("directed", up_scripts + [("alias-%d" % i, mk(**kw), ev) for i, (kw, ev) in enumerate(fx.ALIAS_DIRECTED)])
-    all_cfgs = [c for v in s2c_targets.values() for c in v] + rnd_cfgs + ref_cfgs + [c for _, c in sim_cfgs] + [c for _, c, _ in directed]
+    all_cfgs = [c for v in s2c_targets.values() for c in v] + rnd_cfgs + ref_cfgs + [x[1] for x in sim_cfgs] + [c for _, c, _ in directed]
     pool = ThreadPoolExecutor(max_workers=1)
     fut = pool.submit(fx.prepare, ctx, all_cfgs)
     # the S->C enumerations do not depend on the include tree: TLC starts on them now, the replays use them later
@@ -112,6 +119,8 @@ def _run(ctx, started):
         drivers = fut.result()
     pool.shutdown()
     have = lambda c: c["name"] in drivers
+    # findings this check proposes (PROPOSED_OPEN): their probes decide whether the class is avoided / reported as pending
+    fx.probe_pending(ctx, findings, drivers)
 
     # ---- 3./4. C->S: upstream test sequences, directed aliasing executions, random scripts (+ the same generator on std::basic_string)
     scripts = [x for x in directed if have(x[1])]
@@ -121,14 +130,14 @@ def _run(ctx, started):
         if not have(c):
             continue
         big = c["n"] >= 128
-        nexec, nops = ((12, 40) if big else (40, 45)) if q else ((60, 50) if big else (200, 60))
+        nexec, nops = ((12, 50) if big else (40, 60)) if q else ((80, 80) if big else (250, 90))
         lines = fx.random_script(ctx.seed, c, nexec, nops, fail_bias=0.04)
         for i, ch in enumerate(fx.chunk_by_reset(lines, 1 if q else 2)):
             scripts.append(("rnd-%s-%d" % (c["name"], i), c, ch))
-    for lay, c in sim_cfgs:
+    for simcfg, c, num, depth in sim_cfgs:
         if not have(c):
             continue
-        lines, nw = fx.sim_scripts(ctx, "FixedString_sim_%s_silent.cfg" % lay, c, 500, 40, c["name"])
+        lines, nw = fx.sim_scripts(ctx, simcfg, c, num, depth, c["name"])
         ctx.notes.setdefault("simulation_walks", {})[c["name"]] = nw
         for i, ch in enumerate(fx.chunk_by_reset(lines, 2)):
             scripts.append(("sim-%s-%d" % (c["name"], i), c, ch))
@@ -152,6 +161,15 @@ def _run(ctx, started):
             fx.run_and_validate(ctx, scripts, drivers, findings)
     ctx.cov["evaluations"] += ctx.cov["events_validated"]
     ctx.log("C->S: validated %d events of %d executions with TLC" % (ctx.cov["events_validated"], ctx.cov["traces_validated_against_impl"]))
+
+    # ---- round 3, ADVISORY: the compile-time table beyond the statement, and the operations the statement does not name
+    ext_cfgs = [mk("char", 16, 0, 1, fl="ej"), mk("char", 16, 1, 0, fl="e")]
+    if not q:
+        ext_cfgs += [mk("char", 300, 0, 0, fl="e"), mk("char", 3, 0, 1, fl="ej"), mk("char16_t", 16, 0, 1, fl="e"), mk("char", 255, 0, 0, fl="e")] + (
+            [mk("wchar_t", 16, 0, 0, fl="e")] if wide_ok else [])
+    with fx.stage(ctx, "advisory_round3"):
+        r3.advisory_table(ctx, all_cfgs)
+        r3.ext_stage(ctx, ext_cfgs)
 
     # ---- 5. S->C: every L1 transition at N = 3, silent policy (within the capacity); N = 4: stratified sample
     opcount = {}
